@@ -611,3 +611,89 @@ Proof.
       by (apply nth_error_None; rewrite correct_length; exact E).
     rewrite E1, E2. reflexivity.
 Qed.
+
+(* ------------------------------------------------------------------ *)
+(* skipping uninteresting t-values                                     *)
+Definition Hof (S T : Z) (p : list Z) : list ipair :=
+  holm_pairs S (length p - length (filter (below T) (index p))) (filter (below T) (index p)).
+
+Lemma approx_in_H S T p i w :
+  In (i, w) (Hof S T p) -> nth_error (approx_correct_ttest S T p) i = Some w.
+Proof.
+  intros Hin. rewrite R_approx. apply (by_index_spec _ (length p)).
+  - apply R_keys_approx.
+  - apply in_or_app. left. exact Hin.
+Qed.
+
+Lemma approx_H_exists S T p i v :
+  nth_error p i = Some v -> v < T -> exists w, In (i, w) (Hof S T p).
+Proof.
+  intros Hv Hlt. apply in_fst_exists.
+  eapply Permutation_in; [apply Permutation_sym, R_H_fst|].
+  apply (in_map fst (filter (below T) (index p)) (i, v)).
+  apply filter_In. split; [apply index_in; exact Hv|]. unfold below. cbn. apply Z.ltb_lt. exact Hlt.
+Qed.
+
+Lemma approx_above S T p i v :
+  nth_error p i = Some v -> T <= v -> nth_error (approx_correct_ttest S T p) i = Some v.
+Proof.
+  intros Hv Hge. rewrite R_approx. apply (by_index_spec _ (length p)).
+  - apply R_keys_approx.
+  - apply in_or_app. right. apply filter_In. split; [apply index_in; exact Hv|].
+    unfold below. cbn. apply negb_true_iff. apply Z.ltb_ge. exact Hge.
+Qed.
+
+Definition same_or_above (T v v' : Z) : Prop := v = v' \/ (T <= v /\ T <= v').
+
+Lemma sel_same T : forall p p' k, Forall2 (same_or_above T) p p' ->
+  filter (below T) (index_from k p) = filter (below T) (index_from k p').
+Proof.
+  intros p p' k H. revert k. induction H as [|v v' p p' Hv H IH]; intros k; [reflexivity|].
+  cbn [index_from filter]. rewrite (IH (S k)).
+  assert (Eb : forall x, below T (k, x) = (x <? T)) by reflexivity. rewrite !Eb.
+  destruct Hv as [->|[H1 H2]]; [reflexivity|].
+  apply Z.ltb_ge in H1, H2. rewrite H1, H2. reflexivity.
+Qed.
+
+(* replacing p-values that are >= p_th by other values >= p_th (e.g. by 1, as the code does for
+   the genes with |t| <= boring_t) changes no decision of the restricted correction *)
+Lemma boring_sound : forall S T p p',
+  Forall2 (same_or_above T) p p' ->
+  map (fun v => v <? T) (approx_correct_ttest S T p) = map (fun v => v <? T) (approx_correct_ttest S T p').
+Proof.
+  intros S T p p' HF. pose proof (Forall2_length _ _ _ HF) as Hlen.
+  assert (EH : Hof S T p = Hof S T p').
+  { unfold Hof, index. rewrite (sel_same T p p' 0%nat HF), Hlen. reflexivity. }
+  apply nth_error_ext. intros i. rewrite !nth_error_map.
+  destruct (nth_error p i) as [v|] eqn:E.
+  - destruct (nth_error p' i) as [v'|] eqn:E'.
+    2:{ apply nth_error_None in E'. assert (i < length p)%nat by (apply nth_error_Some; congruence). lia. }
+    pose proof (Forall2_nth_error _ _ _ i v v' HF E E') as Hr.
+    destruct (Z.lt_ge_cases v T) as [Hc|Hc].
+    + destruct Hr as [<-|[Hr _]]; [|lia].
+      destruct (approx_H_exists S T p i v E Hc) as (w & Hw).
+      rewrite (approx_in_H S T p i w Hw). rewrite EH in Hw. rewrite (approx_in_H S T p' i w Hw). reflexivity.
+    + assert (Hc' : T <= v') by (destruct Hr as [<-|[_ Hr]]; lia).
+      rewrite (approx_above S T p i v E Hc), (approx_above S T p' i v' E' Hc'). cbn.
+      f_equal. apply Z.ltb_ge in Hc, Hc'. rewrite Hc, Hc'. reflexivity.
+  - assert (E' : nth_error p' i = None) by (apply nth_error_None; apply nth_error_None in E; lia).
+    apply nth_error_None in E, E'.
+    assert (E1 : nth_error (approx_correct_ttest S T p) i = None)
+      by (apply nth_error_None; rewrite approx_length; exact E).
+    assert (E2 : nth_error (approx_correct_ttest S T p') i = None)
+      by (apply nth_error_None; rewrite approx_length; exact E').
+    rewrite E1, E2. reflexivity.
+Qed.
+
+(* ... nor of the full Holm correction *)
+Lemma boring_sound_full : forall S T p p',
+  Forall (fun x => 0 <= x <= S) p -> Forall (fun x => 0 <= x <= S) p' -> T <= S ->
+  Forall2 (same_or_above T) p p' ->
+  map (fun v => v <? T) (correct_ttest S 0 p) = map (fun v => v <? T) (correct_ttest S 0 p') /\
+  map (fun v => v <? T) (approx_correct_ttest S T p') = map (fun v => v <? T) (correct_ttest S 0 p).
+Proof.
+  intros S T p p' Hp Hp' HT HF.
+  pose proof (restricted_holm_decisions S T p Hp HT) as D1.
+  pose proof (restricted_holm_decisions S T p' Hp' HT) as D2.
+  pose proof (boring_sound S T p p' HF) as B. split; congruence.
+Qed.
